@@ -43,7 +43,8 @@ class Check:
 
     def require(self, cond, rule, key, site="", detail="", path=None):
         if cond:
-            self.ok(rule, key, site, detail if isinstance(detail, str) and len(detail) < 300 else "")
+            # `detail` is worded for the failing case: do not attach it to a discharged obligation
+            self.ok(rule, key, site, "")
         else:
             self.fail(rule, key, site, detail, path)
         return cond
@@ -102,7 +103,9 @@ class Check:
                 "rule": "one obligation per (rule, site/path instance) found in /repo's current MIR/AST; "
                         "distinct = distinct (rule,key) pairs; nothing is sampled or random",
                 "rules": self.rules_text,
-                "samples": self.samples or [o for o in self.obligations[:5]],
+                "samples": self.samples or [dict(o, verdict="discharged" if o["ok"] else "failed",
+                                                  rule_text=self.rules_text.get(o["rule"].split("/")[0], "")[:300])
+                                             for o in self.obligations[:5]],
                 "known_findings": [k for k, _, _ in known_hit],
                 "violating_keys": [k for k, _ in violations],
                 "stats": self.stats,
